@@ -848,6 +848,17 @@ hdf_xdr_NCvdata(NC *handle, NC_var *vp, unsigned long where, nc_type type, uint3
         } /* end if */
     }     /* end if */
 
+    /* Positions and lengths inside a data element are signed 32-bit quantities: refuse what they cannot hold */
+    {
+        unsigned long start_pos = where + (unsigned long)(vp->data_offset > 0 ? vp->data_offset : 0);
+
+        if (start_pos > (unsigned long)INT_MAX ||
+            (unsigned long)count * (unsigned long)vp->HDFsize > (unsigned long)INT_MAX - start_pos) {
+            ret_value = FAIL;
+            goto done;
+        }
+    }
+
     /* Collect all the number-type size information, etc. */
     byte_count = count * vp->HDFsize;
 
